@@ -279,8 +279,10 @@ pub fn run_batch<L: Layer>(layer: &L, cfg: &BatchCfg) -> BatchResult<L::Case> {
         samples: Vec::new(),
     });
     // per-worker "currently running" slots for the hang watchdog: (run index + 1, start ms)
-    let slots: Arc<Vec<(AtomicU64, AtomicU64)>> =
-        Arc::new((0..cfg.workers).map(|_| (AtomicU64::new(0), AtomicU64::new(0))).collect());
+    #[repr(align(128))] // one cache line per worker: no false sharing in the hot loop
+    struct Slot(AtomicU64, AtomicU64);
+    let slots: Arc<Vec<Slot>> =
+        Arc::new((0..cfg.workers).map(|_| Slot(AtomicU64::new(0), AtomicU64::new(0))).collect());
     let hang: Mutex<Option<(u64, u64)>> = Mutex::new(None);
     let done = AtomicBool::new(false);
 
@@ -295,9 +297,9 @@ pub fn run_batch<L: Layer>(layer: &L, cfg: &BatchCfg) -> BatchResult<L::Case> {
                 while !done.load(Ordering::Relaxed) {
                     std::thread::sleep(Duration::from_millis(200));
                     let now = t0.elapsed().as_millis() as u64;
-                    for (run1, start) in slots.iter() {
-                        let r = run1.load(Ordering::Relaxed);
-                        let s = start.load(Ordering::Relaxed);
+                    for slot in slots.iter() {
+                        let r = slot.0.load(Ordering::Relaxed);
+                        let s = slot.1.load(Ordering::Relaxed);
                         if r != 0 && now.saturating_sub(s) > HANG_AFTER.as_millis() as u64 {
                             let mut h = hang.lock().unwrap();
                             if h.is_none() {
